@@ -329,3 +329,27 @@ Example ex_generation_follows_session :
      not fit the legacy message, start() raises ValueError on an accepted configuration *)
   create_msgs false (s_toc s) (c_id (get s 0)) (c_vars (get s 0)) = ([], Some ValueError).
 Proof. vm_compute. repeat split; reflexivity. Qed.
+
+(* ---------------------------------------------------------------- acknowledgements of the old session that arrive late (wave 15) *)
+(* session 1: add, start (CREATE sent); the link is closed while the create acknowledgement is still in the
+   receive queue; it is dispatched after the disconnected callbacks and sets added again (and sends START into
+   the void).  Session 2: the reset reply forgets, the re-added configuration is created again. *)
+Definition ex_late_ack_history : list ev :=
+  ex_session ++ [ENew 100 1; EAddVar 0 1 1; EAddConfig 0; EStart 0; ELinkDown;
+                 EPacket 1 [6; 1; 0]].      (* the late create acknowledgement *)
+
+(* the variant that forgets in Log._disconnected and only empties log_blocks at the reset reply (seeded/C05-o) *)
+Definition reset_reply_without_forget (s : st) : st := set_rp (set_toc (set_blocks s []) (Some [])) false.
+
+Example ex_late_ack :
+  let s := final init_st ex_late_ack_history in
+  flags (get s 0) = (true, false) /\
+  (* the code: reset reply of session 2, table, re-add, start(): creation message *)
+  (let s2 := final s [ERefresh true; EPacket 1 [5; 0; 0]; ESetToc ex_toc; EAddConfig 0] in
+   flags (get s2 0) = (false, false) /\ c_pending (get s2 0) = 0 /\
+   snd (fst (start s2 0)) = [OWire 5 1 [6; 2; 17; 45; 1] [6; 2]]) /\
+  (* the variant: the flag survives the reset reply, start() sends START for a block the device does not have *)
+  (let s2' := final (reset_reply_without_forget (final s [ERefresh true])) [ESetToc ex_toc; EAddConfig 0] in
+   flags (get s2' 0) = (true, false) /\
+   snd (fst (start s2' 0)) = [OWire 5 1 [3; 2; 10] [3; 2]]).
+Proof. vm_compute. repeat split; reflexivity. Qed.
